@@ -11,7 +11,8 @@ from vlib import core
 ALL_OPS = ["New", "Append", "SetIndices", "SetMaterial", "SetMaterials", "SetAttr", "ModifyAttr",
            "CopyAttr", "Translate", "Scale", "Rotate", "ApplyTRS", "TranslateAttr", "ScaleAttr",
            "RotateAttr", "CenterAttr", "ToPointCloud", "Unweld", "RemoveUnreferenced", "FlipWinding",
-           "Weld", "RemoveNullFaces", "Split", "Filter", "Crop", "Repeat", "Export", "Scan"]
+           "Weld", "RemoveNullFaces", "Split", "Filter", "Crop", "Repeat", "Export", "Scan",
+           "Normalize", "FlatNormals", "SmoothNormals", "Laplacian"]
 
 Q = 1024
 
@@ -173,8 +174,12 @@ def execute_and_judge(ctx, vh, hists, name="main"):
         raw = f.readlines()
     findings = []
     results = core.validate_sharded(ctx, name, "TraceMeshPool", "TraceMeshPool.cfg", raw, timeout=3000)
+    judged = ctx.extra.setdefault("steps_judged_by_value", {})
     for sh, r in results:
         for v in r.values:
+            if isinstance(v, dict) and "judged" in v:
+                for op, n in v["judged"].items():
+                    judged[op] = judged.get(op, 0) + n
             if not (isinstance(v, dict) and "bad" in v):
                 continue
             ln = json.loads(sh[v["l"] - 1])
@@ -217,6 +222,10 @@ def run_family(ctx, prefix):
         ctx.violation(sig, what, {"family": "meshpool", "history": {"nslots": h["nslots"], "steps": h["steps"][:f["i"] + 1]},
                                   "expected": f["exp"]})
     ctx.extra["flags_for_other_properties"] = other
+    missing = [op for op in ALL_OPS if ctx.extra.get("steps_judged_by_value", {}).get(op, 0) == 0]
+    ctx.extra["ops_never_judged_by_value"] = missing
+    if missing:
+        raise core.Infra("operations never judged by value (vacuous): %s" % missing)
     ctx.assumptions += [
         "projection of real meshes through public observers (harness/project) is faithful",
         "values are judged on the 1/1024 lattice; raw float bits only through a fingerprint in frame checks",
